@@ -65,9 +65,17 @@ func Build(c Config) error {
 		return err
 	}
 	if !c.Plain {
+		typer, err := vrewrite.NewTyper(c.Repo, goEnv(c.ExtraEnv))
+		if err != nil {
+			return fmt.Errorf("type information for the instrumenter: %w", err)
+		}
 		for _, d := range dirs {
 			rel, _ := filepath.Rel(c.Repo, d)
-			m, err := vrewrite.RewriteDir(d, filepath.Join(inst, rel), vrewrite.Options{LoopTicks: true})
+			ip := "github.com/pion/interceptor"
+			if rel != "." {
+				ip += "/" + filepath.ToSlash(rel)
+			}
+			m, err := vrewrite.RewriteDir(d, filepath.Join(inst, rel), vrewrite.Options{LoopTicks: true, Typer: typer, ImportPath: ip})
 			if err != nil {
 				return err
 			}
@@ -75,14 +83,16 @@ func Build(c Config) error {
 				overlay[k] = v
 			}
 		}
-		// golang.org/x/time/rate calls time.Now and uses sync.Mutex
+		// golang.org/x/time/rate calls time.Now and uses sync.Mutex: an instrumented copy is
+		// served as the virtual package github.com/pion/interceptor/vsched/xrate and the
+		// repository's import of it is redirected there by vrewrite.
 		if dir := moduleDir(c, "golang.org/x/time"); dir != "" {
-			m, err := vrewrite.RewriteDir(filepath.Join(dir, "rate"), filepath.Join(inst, "_xtime_rate"), vrewrite.Options{})
+			m, err := vrewrite.RewriteDir(filepath.Join(dir, "rate"), filepath.Join(inst, "_xrate"), vrewrite.Options{Light: true})
 			if err != nil {
 				return err
 			}
 			for k, v := range m {
-				overlay[k] = v
+				overlay[filepath.Join(c.Repo, "vsched", "xrate", filepath.Base(k))] = v
 			}
 		}
 	}
